@@ -41,6 +41,7 @@ type L2Genesis struct {
 	Opchild       *opchildtypes.GenesisState
 	CurrencyPairs []string // e.g. "BTC/USD"
 	AppState      map[string]json.RawMessage
+	InitialHeight int64
 }
 
 // HostSetUpdate is the block-level input standing for the IBC light-client
@@ -81,6 +82,7 @@ type L2 struct {
 
 	pendingHost []HostSetUpdate
 	lastTime    time.Time
+	initialHeight int64
 	// InitValidators is the validator set InitChain returned (fresh nodes only)
 	InitValidators []abci.ValidatorUpdate
 	// PlanErrs holds the result of each start-up plan registration
@@ -342,12 +344,17 @@ func (n *L2) initChain(gen *L2Genesis) {
 	if err != nil {
 		panic(err)
 	}
+	ih := gen.InitialHeight
+	if ih < 1 {
+		ih = 1
+	}
+	n.initialHeight = ih
 	cp := &cmtproto.ConsensusParams{
 		Block:     &cmtproto.BlockParams{MaxBytes: 1 << 22, MaxGas: -1},
 		Evidence:  &cmtproto.EvidenceParams{MaxAgeNumBlocks: 1000, MaxAgeDuration: time.Hour, MaxBytes: 1 << 20},
 		Validator: &cmtproto.ValidatorParams{PubKeyTypes: []string{"ed25519"}},
 	}
-	res, err := n.App.InitChain(&abci.RequestInitChain{ChainId: L2ChainID, Time: gen.Time, ConsensusParams: cp, AppStateBytes: bz, InitialHeight: 1})
+	res, err := n.App.InitChain(&abci.RequestInitChain{ChainId: L2ChainID, Time: gen.Time, ConsensusParams: cp, AppStateBytes: bz, InitialHeight: ih})
 	if err != nil {
 		panic(fmt.Sprintf("L2 InitChain: %v", err))
 	}
@@ -358,13 +365,20 @@ func (n *L2) initChain(gen *L2Genesis) {
 	n.Commit()
 }
 
+func (n *L2) nextHeight() int64 {
+	if n.App.LastBlockHeight() == 0 && n.initialHeight > 1 {
+		return n.initialHeight
+	}
+	return n.App.LastBlockHeight() + 1
+}
+
 func (n *L2) Height() int64       { return n.App.LastBlockHeight() }
 func (n *L2) LastTime() time.Time { return n.lastTime }
 
 func (n *L2) Finalize(t time.Time, txs [][]byte, host []HostSetUpdate) (*abci.ResponseFinalizeBlock, error) {
 	n.pendingHost = host
 	n.LastEndBlockErr = nil
-	res, err := n.App.FinalizeBlock(&abci.RequestFinalizeBlock{Height: n.App.LastBlockHeight() + 1, Time: t, Txs: txs})
+	res, err := n.App.FinalizeBlock(&abci.RequestFinalizeBlock{Height: n.nextHeight(), Time: t, Txs: txs})
 	n.pendingHost = nil
 	if err == nil {
 		n.lastTime = t
